@@ -161,7 +161,7 @@ class ReqObs(object):
     @staticmethod
     def summarize(rows):
         if rows is None:
-            return None
+            return []
         try:
             return [(r.rid, r.node, r.seqno) for r in rows]
         except Exception:
